@@ -26,9 +26,16 @@ func fromEngineMove(m move.Move) (ref.Move, error) {
 // position through FEN, then every move of the history through MakeMove
 // (what both the UCI position command and datagen do).
 func engineBoard(g *ref.Game) (*board.Board, error) {
-	b, err := board.FromFEN(g.Start.FEN())
-	if err != nil {
-		return nil, fmt.Errorf("engine rejects FEN %q: %v", g.Start.FEN(), err)
+	var b *board.Board
+	if fen := g.Start.FEN(); fen == ref.StartFEN {
+		// what `position startpos` does
+		b = board.StartPos()
+	} else {
+		var err error
+		b, err = board.FromFEN(fen)
+		if err != nil {
+			return nil, fmt.Errorf("engine rejects FEN %q: %v", fen, err)
+		}
 	}
 	for _, m := range g.Moves {
 		b.MakeMove(toEngineMove(m))
